@@ -9,6 +9,7 @@ package main
 import (
 	"fmt"
 	"sort"
+	"strconv"
 )
 
 type degrader struct {
@@ -109,6 +110,24 @@ func (g *degrader) ty(s *Src, attrOK bool) *Src {
 	case SDict:
 		s.Elem = g.ty(s.Elem, false)
 	case SOneOfScalars:
+		if g.format == "cue" && srcConstUnion(s.Alts) && s.Alts[0].Const.K == 'n' {
+			// `0 | 1 | 2` without member names is refused by cog's CUE front-end ("numeric enums may only be
+			// generated from memberNames attribute"): the union of integer constants IS an integer enum there
+			allInt := true
+			e := &Src{Kind: SEnumI}
+			for _, a := range s.Alts {
+				v, err := strconv.ParseInt(a.Const.S, 10, 64)
+				if a.Const.K != 'n' || err != nil {
+					allInt = false
+					break
+				}
+				e.EnumI = append(e.EnumI, v)
+			}
+			if allInt {
+				g.log["union.constInts→enumI"]++
+				return g.ty(e, attrOK)
+			}
+		}
 		for i := range s.Alts {
 			s.Alts[i] = g.ty(s.Alts[i], false)
 		}
